@@ -260,6 +260,12 @@ def oneof_programs():
     p = P('oneof_inner', nodes, 'A', 'O', tags=['oneof'])
     out += variants(p, [[R({})], [R({'K1': ['raise:E1']})], [R({'K1': ['raise:E1'], 'K2': ['raise:E2']})],
                         [R({'K1': ['raise:E1'], 'Z': ['raise:E3']})]], ['ok', 'k1', 'all', 'k1_z'])
+    # D5: the failing branch cancels a still-pending sibling task of the candidate's sub-pipeline
+    nodes = [N('A'), N('U1', I('p1', 'A')), N('Z', I('p1', 'A')), N('Y', I('p1', 'U1')), N('K1', I('p1', 'Y'), I('p2', 'Z')),
+             N('K2', I('p1', 'A')), N('O', OO('p1', ['K1', 'K2']))]
+    p = P('oneof_cancel_sibling', nodes, 'A', 'O', tags=['oneof', 'D5'])
+    out += variants(p, [[R({'U1': ['raise:E1']})], [R({})], [R({'U1': ['raise:E1'], 'K2': ['raise:E2']})]],
+                    ['u1fails', 'ok', 'allfail'])
     # retry inside a candidate
     nodes = [N('A'), N('K1', I('p1', 'A'), attempts=2), N('K2', I('p1', 'A')), N('O', OO('p1', ['K1', 'K2']))]
     p = P('oneof_retry', nodes, 'A', 'O', tags=['oneof', 'retry'])
